@@ -3,6 +3,7 @@ package stringlib
 import (
 	"errors"
 	"fmt"
+	"io"
 	"math"
 	"strconv"
 	"strings"
@@ -128,7 +129,7 @@ OuterLoop:
 						return "", err
 					}
 					tmpMem += t.RequireBytes(len(s))
-					arg = string(s)
+					arg = luaString(s)
 					break ArgLoop
 				case 'q':
 					// quote, only for literals I think
@@ -210,6 +211,35 @@ OuterLoop:
 
 	// Release temporary memory
 	return fmt.Sprintf(string(outFormat), args...), nil
+}
+
+// luaString is the argument passed to fmt.Sprintf for '%s'.  Lua strings are
+// byte strings, so precision and width count bytes, whereas fmt counts runes
+// when it formats a Go string.
+type luaString string
+
+func (s luaString) Format(f fmt.State, verb rune) {
+	str := string(s)
+	if prec, ok := f.Precision(); ok && prec < len(str) {
+		str = str[:prec]
+	}
+	pad := 0
+	if width, ok := f.Width(); ok && width > len(str) {
+		pad = width - len(str)
+	}
+	switch {
+	case pad == 0:
+		io.WriteString(f, str)
+	case f.Flag('-'):
+		io.WriteString(f, str)
+		io.WriteString(f, strings.Repeat(" ", pad))
+	case f.Flag('0'):
+		io.WriteString(f, strings.Repeat("0", pad))
+		io.WriteString(f, str)
+	default:
+		io.WriteString(f, strings.Repeat(" ", pad))
+		io.WriteString(f, str)
+	}
 }
 
 // Quote returns a string representing the value as a valid Lua literal if
